@@ -174,6 +174,13 @@ class Program:
                 self.modules[name] = Module(name, p, text)
             except SyntaxError as ex:
                 raise AnalysisError('module %s does not parse: %s' % (p, ex))
+        self.desugared = {}
+        if normalise:
+            from .desugar import desugar
+            for name, m in self.modules.items():
+                r = desugar(m.tree)
+                if r:
+                    self.desugared[name] = r
         self.reindex()
         self.normalisation = None
         if normalise:
